@@ -162,6 +162,7 @@ let dispatch (f : string) (args : sx list) : sx =
   match f, args with
   | "tt_encode", [s] -> L (SL.map sx_of_tnode (Teletype.encode (str_of_sx s)))
   | "tt_extract", [k] -> sx_of_str (Teletype.extract (list_of_sx tnode_of_sx k))
+  | "tt_reparse", [k] -> L (SL.map sx_of_tnode (Teletype.reparse (list_of_sx tnode_of_sx k)))
   | "tt_checked", [al; k; s] ->
       let al = (match al with
                 | L [a; b; c; d] -> { a_text = bool_of_sx a; a_s = bool_of_sx b; a_tab = bool_of_sx c; a_lb = bool_of_sx d }
